@@ -210,7 +210,7 @@ def _par(s):
 def s4(ck, an):
     fa = an.fa("LimitOrderBook.acq_price")
     p = fa.f.params[1]
-    tab = sign_table_func(fa, p)
+    tab = sign_table_or_fail(ck, fa, p, "S4.acq-shape") or {"neg": "?", "pos": "?", "zero": "?", "nan": "?"}
     want = {"neg": "self.bid_price", "pos": "self.ask_price", "zero": "1/2*self.ask_price + 1/2*self.bid_price", "nan": "raise"}
     for s in SIGNS:
         ck.check(tab[s] == want[s], "SIGN", f"S4.acq-{s}", fa.f.short, fa.f.loc, f"acq_price({s}) -> {want[s]}", f"acq_price({s}) -> {tab[s]}, expected {want[s]}",
